@@ -114,7 +114,7 @@ func bufprop(r *simkit.Run, prop string) {
 	}
 	h := simkit.NewHash()
 	nEx := rapid.IntRange(1, 4).Draw(rt, "exchanges")
-	spills, retries, overReq, overResp, readFaults, diskFaults, bodiless, aborts := 0, 0, 0, 0, 0, 0, 0, 0
+	spills, retries, overReq, overResp, readFaults, diskFaults, bodiless, aborts, clientGone := 0, 0, 0, 0, 0, 0, 0, 0, 0
 	var samples []string
 
 	for x := 0; x < nEx; x++ {
@@ -129,6 +129,10 @@ func bufprop(r *simkit.Run, prop string) {
 		}
 		ex.chunked = rapid.Bool().Draw(rt, "chunked")
 		ex.unframed = ex.chunked && rapid.IntRange(0, 3).Draw(rt, "undeclared-length-not-chunked") == 0
+		ex.breakAfter = -1
+		if rapid.IntRange(0, 5).Draw(rt, "client-goes-away") == 0 {
+			ex.breakAfter = rapid.SampledFrom([]int{0, 1, 7, 100, 600, 5000}).Draw(rt, "after-bytes")
+		}
 		ex.reader = &faultyReader{data: makeBody(ex.bodyLen), failAt: -1}
 		for i, n := 0, rapid.IntRange(0, 4).Draw(rt, "read-chunks"); i < n; i++ {
 			ex.reader.chunks = append(ex.reader.chunks, rapid.SampledFrom([]int{1, 2, 7, 100, 511, 512, 513, 4096}).Draw(rt, "chunk"))
@@ -292,6 +296,13 @@ func bufprop(r *simkit.Run, prop string) {
 		}
 		if ex.panicked != nil {
 			note("client-writer-misuse", "%s: the client's ResponseWriter was misused: %v", where, ex.panicked)
+			continue
+		}
+		if ex.rec.BrokenPipes > 0 {
+			// the client went away while the response was delivered: nothing may be left behind (checked above);
+			// what it received before is a prefix of nothing in particular
+			clientGone++
+			r.Fault("client-gone-mid-delivery")
 			continue
 		}
 		// ---- request side ----
@@ -492,6 +503,7 @@ func bufprop(r *simkit.Run, prop string) {
 	r.ProbeN("reader-fault-hit", readFaults)
 	r.ProbeN("disk-fault-hit", diskFaults)
 	r.ProbeN("handler-aborted", aborts)
+	r.ProbeN("client-gone-mid-delivery", clientGone)
 	r.Sample(func() any { return map[string]any{"config": cfg.String(), "exchanges": samples} })
 }
 
